@@ -95,7 +95,10 @@ func (pr *ActiveTestResp) IDecode(data []byte) error {
 	defer buf.Release()
 
 	pr.Header = smgp.ReadHeader(buf)
-	pr.Reserved = buf.ReadUint8()
+	// SMGP 3.0.3 (5.2.2.5.2) defines no body for Active_Test_Resp: the reserved octet is optional on input
+	if buf.Remaining() > 0 {
+		pr.Reserved = buf.ReadUint8()
+	}
 
 	return buf.Error()
 }
